@@ -13,6 +13,12 @@ Monitors (DESIGN.md 4/C11):
                       array it was made from - catches a transposition applied consistently in read and write.
   convert_voxels      driver: em2mrc / mrc2em output (default and explicit names) parsed from bytes = source voxels,
                       negated when invert=True.
+  reread_after_edit   driver (history): read a file, overwrite the returned array in place (*= -1, fill), read the SAME untouched
+                      file again with the same and with other options, and convert it with em2mrc / mrc2em: every later
+                      read and every converter output must still equal the bytes on disk (also judged by
+                      read_matches_bytes / convert_voxels).
+  read_results_independent  witness: two successive read() results of one file do not share memory (judged only when the
+                      first result is writeable - a shared read-only array could not be edited).
   overwrite_refusal   driver: with overwrite=False and an existing output the conversion raises and the file keeps its
                       bytes.
 """
@@ -49,7 +55,7 @@ ASSUMPTIONS = [
 
 CLASSES = ["generic", "degenerate", "edge48", "two_equal_axes", "f64_narrow", "special_floats", "int_extremes", "layouts",
            "no_transpose", "data_type_opt", "raw_reader", "raw_reader_variants", "em2mrc", "mrc2em", "overwrite_refusal",
-           "int_min_invert"]
+           "int_min_invert", "read_edit_reread"]
 KEY_INTMIN = "int-min-negation-wraps"
 DTYPES = [np.float32, np.float64, np.int16, np.int8]
 STEMS = ["vol", "emd_1234", "membrane", "a.em", "mrc_avg", "x.mrc", "tomo.rec", "with space", "semrc.em.mrc", "stem"]
@@ -59,11 +65,13 @@ def plan(tier):
     if tier == "quick":
         return dict(n_cases=50 * len(CLASSES), shards=4, classes=CLASSES, timeout_s=600,
                     min_evals={"write_bytes": 3800, "read_matches_bytes": 5500, "roundtrip": 3000, "raw_read": 1600,
-                               "convert_voxels": 780, "overwrite_refusal": 120},
+                               "convert_voxels": 900, "overwrite_refusal": 120,
+                               "reread_after_edit": 1500, "read_results_independent": 500},
                     min_anchor_calls={"cryomap.em2mrc": 300, "cryomap.mrc2em": 300}, min_known={"int-min-negation-wraps": 10})
     return dict(n_cases=2000 * len(CLASSES), shards=16, classes=CLASSES, timeout_s=3000,
                 min_evals={"write_bytes": 120000, "read_matches_bytes": 160000, "roundtrip": 90000, "raw_read": 36000,
-                           "convert_voxels": 30000, "overwrite_refusal": 5500},
+                           "convert_voxels": 36000, "overwrite_refusal": 5500,
+                           "reread_after_edit": 60000, "read_results_independent": 20000},
                 min_anchor_calls={"cryomap.em2mrc": 12000, "cryomap.mrc2em": 12000}, min_known={"int-min-negation-wraps": 200})
 
 
@@ -136,7 +144,7 @@ def setup(ctx):
     ctx.cmap = cryomap
     fw = monitors.wrap(ctx, cryomap, "write", "write_bytes", _w_post, _w_applicable, _w_snapshot)
     fr = monitors.wrap(ctx, cryomap, "read", "read_matches_bytes", _r_post, _r_applicable, _r_snapshot)
-    ctx.declare("roundtrip", "raw_read", "convert_voxels", "overwrite_refusal")
+    ctx.declare("roundtrip", "raw_read", "convert_voxels", "overwrite_refusal", "reread_after_edit", "read_results_independent")
     monitors.trace(ctx, [
         ("cryomap.read", fr, {"mrc_or_rec": "mrcfile.open", "em": "emfile.read", "bad_extension": "is neither em or mrc",
                               "transpose": "data.transpose(2, 1, 0)", "ndarray_input": "np.array(input_map)",
@@ -244,11 +252,12 @@ def gen(ctx, i, cls):
     exts = [".mrc", ".rec", ".em"]
     case = {"i": i, "cls": cls, "arr": arr, "layout": layout, "wT": wT, "rT": rT, "wdt": wdt, "rdt": rdt, "exts": exts,
             "conv": conv, "raw": raw, "kind": kind, "positional": bool(rng.random() < 0.15),
-            "refusals": i % 8 == 3, "invert_contrast": i % 6 == 1}
+            "refusals": i % 8 == 3, "invert_contrast": i % 6 == 1,
+            "edit_reread": cls == "read_edit_reread" or i % 4 == 2}
     flat = arr.ravel()
     case["summary"] = {"shape_xyz": list(shape), "dtype": str(arr.dtype), "values": kind, "layout": layout,
                        "write": {"transpose": wT, "data_type": str(wdt)}, "read": {"transpose": rT, "data_type": str(rdt)},
-                       "convert": conv, "raw": raw, "first_voxels": [repr(v) for v in flat[:4].tolist()]}
+                       "convert": conv, "raw": raw, "edit_reread": case["edit_reread"], "first_voxels": [repr(v) for v in flat[:4].tolist()]}
     return case
 
 
@@ -304,6 +313,8 @@ def _roundtrips(ctx, case, d):
         good = isinstance(back, np.ndarray) and orc.values_equal(back, exp)
         ctx.check("roundtrip", good, None if good else dict(orc.explain(np.asarray(back), exp), ext=ext,
                                                            write_transpose=case["wT"], read_transpose=case["rT"]))
+        if case["edit_reread"] and (case["cls"] == "read_edit_reread" or ext == case["exts"][case["i"] // 4 % 3]):
+            _edit_reread(ctx, case, d, path, back, kw)
         if case["invert_contrast"] and ext == case["exts"][case["i"] % 3]:
             # anchored workload: its inner read and write are judged by the call monitors; no verdict of its own
             try:
@@ -408,19 +419,112 @@ def _convert(ctx, case, d):
         ok, _ = ctx.call(label, f, src, **kw)
     if not ok:
         return
-    exp = _negated(X) if c["invert"] else X
+    _judge_conversion(ctx, label, out, X, c["invert"], d, {"explicit_name": c["explicit"]})
+
+
+def _judge_conversion(ctx, label, out, X, invert, d, info):
+    """converter output parsed from bytes = X (what the source file holds), negated when invert."""
+    exp = _negated(X) if invert else X
     if not os.path.isfile(out):
-        ctx.check("convert_voxels", False, {"function": label, "missing_output": os.path.relpath(out, d), "explicit_name": c["explicit"],
-                                            "files_present": sorted(os.listdir(sub)) + sorted(os.listdir(d))})
+        present = []
+        for root, _, fs in os.walk(d):
+            present += [os.path.relpath(os.path.join(root, f), d) for f in fs]
+        ctx.check("convert_voxels", False, dict(info, function=label, missing_output=os.path.relpath(out, d), files_present=sorted(present)[:30]))
         return
     P = orc.parse(out)
     if "error" in P:
-        ctx.check("convert_voxels", False, {"function": label, "output": os.path.basename(out), "parse": orc.header_summary(P)})
+        ctx.check("convert_voxels", False, dict(info, function=label, output=os.path.basename(out), parse=orc.header_summary(P)))
         return
     good = tuple(P["dims"]) == X.shape and orc.values_equal(P["data"], exp)
-    key = KEY_INTMIN if (not good and _intmin_wrap_only(P["data"], X, c["invert"])) else None
-    ctx.check("convert_voxels", good, None if good else dict(orc.explain(P["data"], exp), function=label, invert=c["invert"],
-                                                            header=orc.header_summary(P), source_dtype=str(X.dtype)), key=key)
+    key = KEY_INTMIN if (not good and _intmin_wrap_only(P["data"], X, invert)) else None
+    ctx.check("convert_voxels", good, None if good else dict(orc.explain(P["data"], exp), function=label, invert=invert,
+                                                            header=orc.header_summary(P), source_dtype=str(X.dtype), **info), key=key)
+
+
+def _scribble(a, how):
+    """overwrite a read() result in place (the caller owns it); returns False if it is not writeable."""
+    if not isinstance(a, np.ndarray) or not a.flags.writeable:
+        return False
+    with np.errstate(all="ignore"):
+        if how == 0:
+            a *= -1
+            a += 3
+        elif how == 1:
+            a[...] = 77
+        else:
+            a[...] = a[::-1, ::-1, ::-1].copy()
+            a.flat[0] = 55
+    return True
+
+
+def _edit_reread(ctx, case, d, path, first, kw):
+    """history: read -> edit the result in place -> read the same untouched file again / convert it; everything is judged
+    against the bytes on disk (parsed once, before any edit)."""
+    cm = ctx.cmap
+    P = orc.parse(path)
+    if "error" in P:
+        return
+    X = np.array(P["data"], copy=True)
+    i = case["i"]
+    ext = orc.ext_of(path)
+
+    def expect(k):
+        return _expected_back(X, k.get("transpose", True), k.get("data_type"))
+
+    def judge(stage, got, k):
+        exp = expect(k)
+        if exp is None:
+            ctx.ood("reread_after_edit")
+            return
+        good = isinstance(got, np.ndarray) and orc.values_equal(got, exp)
+        ctx.check("reread_after_edit", good, None if good else dict(orc.explain(np.asarray(got), exp), stage=stage, file=os.path.basename(path),
+                                                                 options={a: str(b) for a, b in k.items()}))
+
+    prev = first
+    for rep in range(2):                                   # same options twice: edit, read again, edit, read again
+        writeable = _scribble(prev, (i + rep) % 3)
+        ok, again = ctx.call("read(again)", cm.read, path, **kw)
+        if not ok:
+            return
+        judge("same options, after in-place edit #%d of the previous result" % (rep + 1), again, kw)
+        if writeable and isinstance(again, np.ndarray):
+            sh = bool(np.shares_memory(prev, again))
+            ctx.check("read_results_independent", not sh, {"file": os.path.basename(path), "stage": rep, "shares_memory": sh})
+        else:
+            ctx.ood("read_results_independent")
+        prev = again
+    # other option sets (each has its own history: read, edit, read again)
+    others = [{}, {"transpose": False}, {"data_type": np.float64}, {"transpose": False, "data_type": np.float32}]
+    for k in (others[i % 4], others[(i + 1) % 4]):
+        ok, a = ctx.call("read(again)", cm.read, path, **k)
+        if not ok:
+            continue
+        judge("other options, first read", a, k)
+        w = _scribble(a, (i + 1) % 3)
+        ok, b = ctx.call("read(again)", cm.read, path, **k)
+        if not ok:
+            continue
+        judge("other options, after in-place edit", b, k)
+        if w and isinstance(b, np.ndarray):
+            sh = bool(np.shares_memory(a, b))
+            ctx.check("read_results_independent", not sh, {"file": os.path.basename(path), "options": {x: str(y) for x, y in k.items()}, "shares_memory": sh})
+        else:
+            ctx.ood("read_results_independent")
+    # converters get their voxels through read(path) with default options: edit such a result, then convert
+    if ext in (".em", ".mrc"):
+        ok, a = ctx.call("read(again)", cm.read, path)
+        if ok:
+            _scribble(a, i % 3)
+            f, label, oext = (cm.em2mrc, "em2mrc", ".mrc") if ext == ".em" else (cm.mrc2em, "mrc2em", ".em")
+            invert = bool(i % 2) and not (X.dtype.kind == "i" and bool(np.any(X == np.iinfo(X.dtype).min)))
+            out = os.path.join(d, "after_edit_%s%s" % (ext[1:], oext))
+            ok, _ = ctx.call(label + "(after edit)", f, path, invert=invert, output_name=out)
+            if ok:
+                _judge_conversion(ctx, label, out, X, invert, d, {"stage": "source read() result edited in place before the conversion"})
+            # and what read() hands out afterwards is still the file
+            ok, c = ctx.call("read(again)", cm.read, path)
+            if ok:
+                judge("default options, after conversion", c, {})
 
 
 def _refusals(ctx, case, d):
